@@ -37,15 +37,20 @@ theorem r_radians (x : ℝ) : R.radians x = x * (Real.pi / 180) := by
 /-- rewrite every `R ℝ` operation into Mathlib syntax -/
 macro "rsimp" : tactic =>
   `(tactic| simp only [r_add, r_sub, r_mul, r_div, r_neg, r_radians, R.real_sin, R.real_cos, R.real_exp,
-      R.real_sqrt, R.real_npow, R.real_ofNat, R.real_ofSci, R.real_pi, Nat.cast_ofNat, Nat.cast_one, Nat.cast_zero])
+      R.real_sqrt, R.real_npow, R.real_ofNat, R.real_ofSci, R.real_pi, R.real_min, R.real_max, R.real_abs, Nat.cast_ofNat, Nat.cast_one, Nat.cast_zero])
 macro "rsimp" "at" h:ident : tactic =>
   `(tactic| simp only [r_add, r_sub, r_mul, r_div, r_neg, r_radians, R.real_sin, R.real_cos, R.real_exp,
-      R.real_sqrt, R.real_npow, R.real_ofNat, R.real_ofSci, R.real_pi, Nat.cast_ofNat, Nat.cast_one, Nat.cast_zero] at $h:ident)
+      R.real_sqrt, R.real_npow, R.real_ofNat, R.real_ofSci, R.real_pi, R.real_min, R.real_max, R.real_abs, Nat.cast_ofNat, Nat.cast_one, Nat.cast_zero] at $h:ident)
 
 /-- normal form for a constant written `sqrt(8 x)` instead of `2 sqrt(2 x)` -/
 theorem sqrt_eight_mul (x : ℝ) : Real.sqrt (8 * x) = 2 * Real.sqrt (2 * x) := by
   have h : (8 : ℝ) * x = 2 ^ 2 * (2 * x) := by ring
   rw [h, Real.sqrt_mul (by norm_num), Real.sqrt_sq (by norm_num)]
+
+/-- `−min(x, −a) = max(−x, a)`: the faint amplitude limit written with a sign factor (`0.95 · sign · min(oc·rms, |amp|)`,
+    sign = −1) is the one written with `max` -/
+theorem neg_min_neg (x a : ℝ) : -(min x (-a)) = max (-x) a := by
+  rw [← max_neg_neg, neg_neg]
 
 /-! ### the pixelisation loss of a sampled elliptical Gaussian -/
 
